@@ -56,13 +56,13 @@ def _validate_start_end_size(size, name: str) -> None:
 
 
 def _validate_c2c_expansion(c2c_expansion) -> None:
-    if c2c_expansion == 0:
-        raise ValueError("Cell-to-cell expansion must not be 0.")
+    if c2c_expansion <= 0:
+        raise ValueError(f"Cell-to-cell expansion must be positive, got {c2c_expansion}")
 
 
 def _validate_total_expansion(expansion) -> None:
-    if expansion == 0:
-        raise ValueError("Total expansion ratio must not be 0.")
+    if expansion <= 0:
+        raise ValueError(f"Total expansion ratio must be positive, got {expansion}")
 
 
 ### functions returning start_size
@@ -70,6 +70,7 @@ def get_start_size__count__c2c_expansion(length, count, c2c_expansion):
     """Calculates start size from given count and cell-to-cell expansion ratio"""
     _validate_length(length)
     _validate_count(count, ">=1")
+    _validate_c2c_expansion(c2c_expansion)
 
     if abs(c2c_expansion - 1) > constants.TOL:
         return length * (1 - c2c_expansion) / (1 - c2c_expansion**count)
@@ -89,6 +90,7 @@ def get_start_size__end_size__total_expansion(length, end_size, total_expansion)
 def get_end_size__start_size__total_expansion(length, start_size, total_expansion):
     """Calculates end size from given start size and total expansion ratio"""
     _validate_length(length)
+    _validate_total_expansion(total_expansion)
 
     return start_size * total_expansion
 
@@ -111,6 +113,7 @@ def get_count__start_size__c2c_expansion(length, start_size, c2c_expansion):
 def get_count__end_size__c2c_expansion(length, end_size, c2c_expansion):
     """Calculates count from given end size and cell-to-cell expansion ratio"""
     _validate_length(length)
+    _validate_c2c_expansion(c2c_expansion)
 
     if abs(c2c_expansion - 1) > constants.TOL:
         count = np.log(1 / (1 + length / end_size * (1 - c2c_expansion) / c2c_expansion)) / np.log(c2c_expansion)
@@ -129,6 +132,7 @@ def get_count__total_expansion__c2c_expansion(length, total_expansion, c2c_expan
     """Calculates count from total expansion ratio and cell-to-cell expansion ratio"""
     _validate_length(length)
     _validate_total_expansion(total_expansion)
+    _validate_c2c_expansion(c2c_expansion)
 
     if abs(c2c_expansion - 1) <= constants.TOL:
         raise ValueError(
@@ -221,6 +225,7 @@ def get_c2c_expansion__count__total_expansion(length, count, total_expansion):
     """Calculates cell-to-cell expansion ratio from given count and total expansion ratio"""
     _validate_length(length)
     _validate_count(count, ">1")
+    _validate_total_expansion(total_expansion)
 
     return total_expansion ** (1 / (count - 1))
 
@@ -230,6 +235,7 @@ def get_total_expansion__count__c2c_expansion(length, count, c2c_expansion):
     """Calculates total expansion ratio from given count and cell-to-cell expansion ratio"""
     _validate_length(length)
     _validate_count(count, ">=1")
+    _validate_c2c_expansion(c2c_expansion)
 
     return c2c_expansion ** (count - 1)
 
